@@ -36,13 +36,19 @@ def run(tier, seed):
     from fxai import pipeline as P
     for cfg in plan:
         try:
-            ctx = lib.Ctx(cfg, EXTRA, only={"w_hypot", "w_hypot_sw", "w_hypot_abs"})
+            # under the abacus build the sqrt loop is a verified integer square root (fxai.isqrt): the engine applies the summary
+            # isqrt(N), a value-numbered term, so that the programs compared for symmetry share it
+            ctx = lib.Ctx(cfg, EXTRA, only={"w_hypot", "w_hypot_sw", "w_hypot_abs"}, summaries=(cfg == "K17A"))
             r = ctx.run("w_hypot", [DOM, DOM])
             if len(r.paths) < 50:
                 V.broke("w_hypot: only %d paths" % len(r.paths))
-            # symmetry (std::sqrt builds; under the abacus build the loop results are join symbols whose comparison
-            # across two programs is not attempted: the clause is not decided for K17A)
-            if cfg != "K17A":
+            if cfg == "K17A":
+                nsum = r.stats.get("loop_summaries", 0)
+                V.oblige(nsum > 0)
+                V.cover.setdefault("abacus_summaries_applied", {})[cfg] = nsum
+                if not nsum:
+                    V.inconc("w_hypot [%s]: the sqrt loop was not recognised as a verified integer square root (%s)" % (cfg, r.an.isqrt_why))
+            if cfg != "K17A" or r.stats.get("loop_summaries", 0):
                 lib.check_equiv(V, r, ctx.run("w_hypot_sw", [DOM, DOM]), "hypot(a,b) == hypot(b,a)", site="hypot")
                 lib.check_equiv(V, r, ctx.run("w_hypot_abs", [DOM, DOM]), "hypot(a,b) == hypot(|a|,|b|)", site="hypot")
             # never NaN, never negative
@@ -107,7 +113,7 @@ def run(tier, seed):
         except Broken as e:
             V.broke("%s: %s" % (cfg, e))
     expl = ("DECIDED on |a|,|b| < 2^47 raw: hypot(a,b) == hypot(b,a) == hypot(|a|,|b|) by summary equivalence of the inlined programs "
-            "(std::sqrt builds K17/K20; not decided for the abacus build, whose loop results are join symbols); for K17, K17A and K20: the result interval is inside [0, max] on every path (never NaN, never negative); and "
+            "(under the abacus build the sqrt loop, a verified integer square root, enters as the value-numbered summary isqrt(N)); for K17, K17A and K20: the result interval is inside [0, max] on every path (never NaN, never negative); and "
             "every add/mul/shl that hypot itself performs on the unsigned operands stays below 2^64 (wrap events are recorded by the "
             "abstract interpreter per instruction; an instruction whose exact result range reaches 2^64 is confirmed by a concrete witness). "
             "NOT DECIDED: the 2 ulp / 1.5e-4 accuracy bounds.")
